@@ -20,3 +20,99 @@ contract("C01", "ensemble_advance_walker", native=False)(ensemble_advance_walker
 from contracts.c07_hamiltonian import standard_leapfrog_structure, bounded_leapfrog_structure
 contract("C01", "standard_leapfrog_structure", native=False)(standard_leapfrog_structure)
 contract("C01", "bounded_leapfrog_structure", native=False)(bounded_leapfrog_structure)
+
+
+# ---- bounded layer: the samplers reproduce the moments of a known target ----------------------------------------------
+import numpy as np
+
+
+@bounded("C01", "stationary_moments_native", native_runs=8)
+def stationary_moments_native(vc):
+    """long-run means and variances of each sampler on a known 2-d target (correlated Gaussian, optionally tempered or
+    truncated by bounds) agree with the exact values within Monte-Carlo error estimated by batch means.  A bounded,
+    statistical stand-in for the limit law that the per-decision proof obligations do not themselves establish."""
+    from contracts.common import make_sampler, quiet
+    from scipy.stats import truncnorm
+    kind = vc.choice("sampler", ["gibbs", "pca", "hmc", "ensemble"])
+    cfg = vc.choice("config", ["plain", "temperature", "bounds"])
+    seed = vc.int("seed", lo=0, hi=10 ** 6)
+    rng = np.random.default_rng(seed)
+    np.random.seed(seed % (2 ** 31))
+    rho = 0.6 if cfg != "bounds" else 0.0            # (independent coordinates when truncated: exact moments known)
+    mu = np.array([0.5, -1.0])
+    sd = np.array([1.0, 2.0])
+    C = np.array([[sd[0] ** 2, rho * sd[0] * sd[1]], [rho * sd[0] * sd[1], sd[1] ** 2]])
+    iC = np.linalg.inv(C)
+    T = 2.5 if (cfg == "temperature" and kind != "ensemble") else 1.0
+
+    class Target:
+        mu = None
+
+        def __call__(self, x):
+            r = np.asarray(x, dtype=float) - mu
+            return float(-0.5 * r @ iC @ r)
+
+        def grad(self, x):
+            return -(iC @ (np.asarray(x, dtype=float) - mu))
+
+    post = Target()
+    post.mu = mu
+    bounds = (mu - np.array([0.5, 1.0]), mu + np.array([1.5, 2.0])) if cfg == "bounds" else None
+    ch = make_sampler(kind, post, 2, rng, temperature=T, bounds=bounds, seed=seed, grad=post.grad, epsilon=0.25)
+    if kind == "ensemble":
+        # any stretch parameter alpha > 1 must give the same limit law
+        from inference.mcmc import EnsembleSampler
+        from contracts.common import seed_chain
+        a_ = vc.choice("alpha", [1.5, 2.0, 3.5])
+        ch = EnsembleSampler(posterior=post, starting_positions=ch.walker_positions.copy(), bounds=bounds, alpha=a_,
+                             display_progress=False)
+        seed_chain(ch, seed)
+    n = {"gibbs": 9000, "pca": 9000, "hmc": 2500, "ensemble": 900}[kind]
+    quiet(ch.advance, n)
+    X = np.asarray(ch.get_sample(burn=max(n // 10, 50), thin=1), dtype=float)
+    if X.ndim == 1:
+        X = X.reshape(-1, 2)
+    # exact moments of the tempered / truncated target
+    if cfg == "bounds":
+        a = (bounds[0] - mu) / sd
+        b = (bounds[1] - mu) / sd
+        m_true = np.array([truncnorm.mean(a[i], b[i], loc=mu[i], scale=sd[i]) for i in range(2)])
+        v_true = np.array([truncnorm.var(a[i], b[i], loc=mu[i], scale=sd[i]) for i in range(2)])
+    else:
+        m_true, v_true = mu, np.diag(C) * T
+    # Monte-Carlo error by batch means (30 batches)
+    nb = 30
+    L = X.shape[0] // nb
+    B = X[: nb * L].reshape(nb, L, 2)
+    bm, bv = B.mean(axis=1), B.var(axis=1)
+    se_m = bm.std(axis=0, ddof=1) / np.sqrt(nb)
+    se_v = bv.std(axis=0, ddof=1) / np.sqrt(nb)
+    m_hat, v_hat = bm.mean(axis=0), bv.mean(axis=0) + bm.var(axis=0)
+    vc.inputs["z_mean"] = [float(v) for v in (m_hat - m_true) / se_m]
+    vc.inputs["ratio_var"] = [float(v) for v in v_hat / v_true]
+    vc.ensures("mean_of_the_target", bool(np.all(np.abs(m_hat - m_true) < 6 * se_m + 0.02 * sd)))
+    vc.ensures("variance_of_the_target", bool(np.all(np.abs(v_hat - v_true) < 6 * se_v + 0.25 * v_true)))
+
+
+@contract("C01", "ensemble_stretch_constants", native=False, replay_with="stationary_moments_native")
+def ensemble_stretch_constants(vc):
+    """EnsembleSampler.__init__: the stretch variable z = x^2/2 is drawn with x uniform on [sqrt(2/alpha), sqrt(2 alpha)), i.e.
+    z in [1/alpha, alpha) with density ~ 1/sqrt(z) -- the symmetric stretch law g(1/z) = z g(z) that the acceptance rule
+    z^(d-1) pi(Y)/pi(X) assumes (the walker contract takes these two constants as given; here they are established)"""
+    from pyvc import sym as S
+    from pyvc.objlist import PosteriorGhost
+    d = vc.choice("d", [1, 2])
+    nw = vc.int("n_walkers", lo=3)
+    alpha = vc.real("alpha")
+    vc.assume(S.cmp(">", alpha, 1))
+    pos0 = vc.matrix("starting_positions", nw, d)
+    for qn in ("EnsembleSampler.__validate_starting_positions", "EnsembleSampler._EnsembleSampler__validate_starting_positions"):
+        vc.modular(qn, lambda I, func, args, kwargs: args[-1])
+    with vc.raising_allowed():
+        s = vc.new("inference.mcmc.ensemble", "EnsembleSampler", posterior=PosteriorGhost(), starting_positions=pos0, alpha=alpha,
+                   display_progress=False)
+    lo, w = vc.attr(s, "x_lwr"), vc.attr(s, "x_width")
+    hi = S.add(lo, w)
+    vc.ensures("stretch_parameter_stored", S.cmp("==", vc.attr(s, "alpha"), alpha))
+    vc.ensures("lower_end_is_sqrt_2_over_alpha", S.And(S.cmp(">=", lo, 0), S.cmp("==", S.mul(S.mul(lo, lo), alpha), 2)))
+    vc.ensures("upper_end_is_sqrt_2_alpha", S.And(S.cmp(">=", hi, 0), S.cmp("==", S.mul(hi, hi), S.mul(2, alpha))))
